@@ -884,7 +884,7 @@ RESOLVER_FAULTS = ["oserror:emfile", "oserror:enomem", "herror", "timeout"]
 UNICODE_NAMES = ["a" * 64 + ".example.test", "a..b", ".example.test", "x." + "b" * 70]
 NAMES = ["api.example.test", "internal.example.test", "db", "localhost", "svc-1.example.test", "a-b", "ab", "x_y.example.test",
          "a" * 63 + ".example.test", "EXAMPLE.test", "10.example.test", "127.0.0.1.nip.test"]
-BAD_ENTRIES = ["bad_entry", "a-b", "1.2.3", "", "-x.com", "x.com-", "a", "1.2.3.4.5", "ex ample", "a..b", "::1::", "300.1.1.1"]
+BAD_ENTRIES = [" api.example.test", "api.example.test ", "\tinternal.example.test", " 8.8.8.8", "db ", "bad_entry", "a-b", "1.2.3", "", "-x.com", "x.com-", "a", "1.2.3.4.5", "ex ample", "a..b", "::1::", "300.1.1.1"]
 HDRS = ["-", "-", "-", "other", "v:true", "v:false", "v:True", "v:%e", "v:1", "K:true", "v:true%20"]
 
 
@@ -959,7 +959,13 @@ def rand_list(r, pool):
             items.append(r.pick(BAD_ENTRIES))
         else:
             items.append(r.pick(pool))
-    return enc(",".join(items))
+    # lists as people write them: blanks around the delimiter end up INSIDE the entries
+    sep = r.pick([",", ",", ",", ",", ", ", " ,", " , "])
+    if sep != ",":
+        # the validator's regular expression backtracks exponentially on a long label followed by an invalid
+        # character (63 x 'a' + blank never returns): keep blank-padded entries short
+        items = [i for i in items if all(len(l) <= 12 for l in i.split("."))] or ["db"]
+    return enc(sep.join(items))
 
 
 def host_case(r, cid):
@@ -1037,7 +1043,7 @@ def rand_seq_case(r, cid):
 def probe_case(r, cid, n):
     ops = ["cfg max=1 cool=1 block=%n allow=%n t0=0"]
     fixed = IPV6_LITS + NOT_IPV6 + BOUNDARY_IPS[:8] + BAD_ENTRIES + NAMES + list(NUMERIC_NAMES) + UNRESOLVABLE + \
-        ["a-bc", "ab-c", "a--b", "a-b-c", "a.b", "ab.cd", "a.bc", "a-.bc", "1a", "1.2.3.a", "1.2.3.4a", "01.2.3.4", "1.2.3.04",
+        [" ab.cd", "ab.cd ", " ab.cd ", "\tab.cd", "ab .cd", " 1.2.3.4", "1.2.3.4 ", "a-bc", "ab-c", "a--b", "a-b-c", "a.b", "ab.cd", "a.bc", "a-.bc", "1a", "1.2.3.a", "1.2.3.4a", "01.2.3.4", "1.2.3.04",
          "1.2.3.256", "255.255.255.255", "1..2.3", "1.2.3.4.", ".1.2.3.4", "00.0.0.0", "0.0.0.00", "1.2.3.1000", "::", ":::",
          "::1.2.3.4", "1:2:3:4:5:6:1.2.3.4", "1:2:3:4:5:6:7:1.2.3.4", "::1.2.3", "1::1.2.3.4", "abcd:ef01:2345:6789:abcd:ef01:2345:6789",
          "ABCD::", "abcde::", "::%1", "%", "%1", "a%b", "::1%1%", "1.2.3.4%1", "-", ".", "..", "a.", ".a", "a..bc", "xn--a.bc"]
@@ -1087,6 +1093,18 @@ def generate(r, tier, budget, emit):
             ops += ["call host=%s hdr=- gw=%s direct=ok" % (PUBLIC, w)] * maxe
             ops += ["call host=%s hdr=- gw=ok direct=ok" % PUBLIC, "adv d=16", "call host=%s hdr=- gw=ok direct=ok" % PUBLIC]
             emit(nid("x"), ops)
+    # access lists written with blanks around the delimiter ("a.com, b.com"): the entries keep the blank, are
+    # not hosts, and (block list) disable the interceptor / (allow list) are dropped - never silently accepted
+    for sep in (", ", " ,", " , ", ",\t"):
+        for kind in ("block", "allow"):
+            for lib in LIBS:
+                lst = enc(sep.join(["other.example.test", PUBLIC, "8.8.8.8"]))
+                ops = ["cfg max=2 cool=1 block=%s allow=%s t0=%d" % (lst if kind == "block" else "%n", lst if kind == "allow" else "%n", T0),
+                       "dns %s ip:%s" % (PUBLIC, PUBLIC_IP), "dns other.example.test ip:%s" % PUBLIC_IP, "dns third.example.test ip:%s" % PUBLIC_IP]
+                for h in (PUBLIC, "other.example.test", "8.8.8.8", "third.example.test", " " + PUBLIC):
+                    ops.append("call lib=%s host=%s hdr=- gw=ok direct=ok" % (lib, enc(h)))
+                    ops.append("decide host=%s hdr=-" % enc(h))
+                emit(nid("w"), ops)
     # resolver answers as a history: the first k lookups of a public name fail, later ones succeed; around a
     # trip of the breaker (no lookup happens while it is open) and after the cool-down
     for k in (0, 1, 2, 3):
